@@ -34,6 +34,8 @@ pub struct Plan {
     pub controls: BTreeMap<usize, Control>,
     /// user calls landed right after the n-th connection loss (while the client is reconnecting)
     pub on_drop: BTreeMap<usize, Control>,
+    /// 0: QoS 0/1 workload with a QoS 1 server publish; 1: QoS 2 publish, unsubscribe and a QoS 2 server publish
+    pub workload: u8,
 }
 
 #[derive(Clone, Copy, Debug, PartialEq, Eq)]
@@ -236,13 +238,14 @@ pub fn execute(plan: &Plan) -> Outcome {
 
     let mut broker = Broker::default();
     let inbound_payload = pattern(BIG, 0x5a);
-    broker.inject_after_suback = Some(crate::refcodec::encode(&gneiss_mqtt::verif::Pkt::Publish(gneiss_mqtt::verif::VPublish { topic: "in/big".into(), qos: 1, packet_id: 77, payload: Some(inbound_payload.clone()), ..Default::default() }), false).unwrap());
+    broker.inject_after_suback = Some(super::broker::injected_publish(plan.workload, &inbound_payload));
 
     // operation results
     let callback_count = Arc::new(AtomicU32::new(0));
     let callback_results: Arc<Mutex<Vec<String>>> = Arc::new(Mutex::new(Vec::new()));
     let mut receivers_pub: Vec<Slot<PublishResult>> = Vec::new();
     let mut receivers_sub: Vec<Slot<SubscribeResult>> = Vec::new();
+    let mut receivers_unsub: Vec<Slot<UnsubscribeResult>> = Vec::new();
     let mut callbacks_expected = 0u32;
     let mut submitted_workload = false;
     let mut stop_issued = false;
@@ -306,10 +309,14 @@ pub fn execute(plan: &Plan) -> Outcome {
                     let small = PublishPacket::builder("out/small".to_string(), QualityOfService::AtLeastOnce).with_payload(vec![1, 2, 3]).build();
                     callbacks_expected += 1;
                     let _ = client.publish_with_callback(small, None, Box::new(move |r| { cc.fetch_add(1, Ordering::SeqCst); cr.lock().unwrap().push(format!("small:{}", if r.is_ok() { "ok" } else { "err" })); }));
-                    let big = PublishPacket::builder("out/big".to_string(), QualityOfService::AtLeastOnce).with_payload(big_payload.clone()).build();
+                    let big = PublishPacket::builder("out/big".to_string(), if plan.workload == 1 { QualityOfService::ExactlyOnce } else { QualityOfService::AtLeastOnce }).with_payload(big_payload.clone()).build();
                     receivers_pub.push(Slot::new("big", client.publish(big, None)));
-                    let q0 = PublishPacket::builder("out/q0".to_string(), QualityOfService::AtMostOnce).with_payload(vec![4]).build();
-                    receivers_pub.push(Slot::new("q0", client.publish(q0, None)));
+                    if plan.workload == 1 {
+                        receivers_unsub.push(Slot::new("unsubscribe", client.unsubscribe(UnsubscribePacket::builder().with_topic_filter("gone/#".to_string()).build(), None)));
+                    } else {
+                        let q0 = PublishPacket::builder("out/q0".to_string(), QualityOfService::AtMostOnce).with_payload(vec![4]).build();
+                        receivers_pub.push(Slot::new("q0", client.publish(q0, None)));
+                    }
                     // statically invalid operations must be refused at submission (C16) and never reach the wire
                     let invalid = PublishPacket::builder("bad/#".to_string(), QualityOfService::AtLeastOnce).with_payload(vec![6]).build();
                     receivers_pub.push(Slot::new("invalid-topic", client.publish(invalid, None)));
@@ -321,7 +328,8 @@ pub fn execute(plan: &Plan) -> Outcome {
                     let _ = client.close(); close_issued = true;
                 }
                 if submitted_workload && !stop_issued && !close_issued {
-                    let all = receivers_pub.iter_mut().all(|r| r.poll()) && receivers_sub.iter_mut().all(|r| r.poll()) && callback_count.load(Ordering::SeqCst) >= callbacks_expected && (!inbound.lock().unwrap().is_empty() || (broker.to_client.is_empty() && idle_iterations > 4));
+                    let all = receivers_pub.iter_mut().all(|r| r.poll()) && receivers_sub.iter_mut().all(|r| r.poll()) && receivers_unsub.iter_mut().all(|r| r.poll()) && callback_count.load(Ordering::SeqCst) >= callbacks_expected
+                        && ((!inbound.lock().unwrap().is_empty() && (plan.workload == 0 || broker.inject_acked)) || (broker.to_client.is_empty() && idle_iterations > 4));
                     if all { let _ = client.stop(None); stop_issued = true; }
                 }
                 {
@@ -359,7 +367,7 @@ pub fn execute(plan: &Plan) -> Outcome {
                 // not connected: the loop polls the operation channel / the connection result on its own
                 let stopped = events.lock().unwrap().iter().filter(|e| *e == "Stopped").count();
                 if stop_issued && stopped > 0 && !close_issued {
-                    if plan.controls.values().chain(plan.on_drop.values()).any(|c| matches!(c, Control::Stop | Control::StopDisconnect)) && !restart_pending && !(receivers_pub.iter_mut().all(|r| r.poll()) && receivers_sub.iter_mut().all(|r| r.poll())) {
+                    if plan.controls.values().chain(plan.on_drop.values()).any(|c| matches!(c, Control::Stop | Control::StopDisconnect)) && !restart_pending && !(receivers_pub.iter_mut().all(|r| r.poll()) && receivers_sub.iter_mut().all(|r| r.poll()) && receivers_unsub.iter_mut().all(|r| r.poll())) {
                         // a stop landed by the plan in mid-workload: start again, everything must still complete
                         restart_pending = true; stop_issued = false;
                         if client.start(None).is_err() { out.problem("start-after-stop-fails", "start() after a Stopped event returned an error"); break 'outer; }
@@ -393,7 +401,7 @@ pub fn execute(plan: &Plan) -> Outcome {
     judge_wire(&mut out, &broker, &big_payload, &inbound_payload, &inbound_now);
     // every operation yields exactly one result
     let settle = Duration::from_millis(300);
-    for slot in receivers_pub.iter_mut().map(|s| s as &mut dyn SlotLike).chain(receivers_sub.iter_mut().map(|s| s as &mut dyn SlotLike)) {
+    for slot in receivers_pub.iter_mut().map(|s| s as &mut dyn SlotLike).chain(receivers_sub.iter_mut().map(|s| s as &mut dyn SlotLike)).chain(receivers_unsub.iter_mut().map(|s| s as &mut dyn SlotLike)) {
         wait_until(|| slot.poll_dyn(), settle);
         let name = slot.name().to_string();
         match slot.outcome() {
@@ -457,6 +465,12 @@ pub fn judge_wire(out: &mut Outcome, broker: &Broker, big_payload: &[u8], inboun
     for payload in inbound.iter() {
         if &payload[..] != inbound_payload { out.problem("inbound-payload-corrupted", format!("{} bytes surfaced", payload.len())); }
     }
+    // exactly-once in both directions holds whatever the transport does: every connection after the first resumes the session
+    if out.plan.workload == 1 {
+        if inbound.len() > 1 { out.problem("C05:inbound-qos2-publish-surfaced-more-than-once", format!("{} PublishReceived events for one QoS 2 message (packet id 78)", inbound.len())); }
+        for (topic, n) in &broker.qos2_deliveries { if *n > 1 { out.problem("C04:qos2-publish-delivered-more-than-once", format!("the server handed '{}' to its subscribers {} times (PUBLISH retransmitted after its PUBREL)", topic, n)); } }
+    }
+    for problem in &broker.protocol_problems { out.problem("acknowledgement-for-a-packet-the-server-never-sent", problem.clone()); }
 }
 
 pub fn judge_events(out: &mut Outcome) {
